@@ -4,6 +4,7 @@
 mod c01;
 mod c03;
 mod c04;
+mod c08;
 mod c09;
 mod c10;
 mod c11;
@@ -42,8 +43,16 @@ fn rule_and_assumptions(prop: &str) -> (&'static str, Vec<&'static str>) {
 }
 
 fn run(prop: &str, tier: &str, seed: u64, extra: &[String]) -> Report {
-    let _ = extra;
     match prop {
+        "C08" => match extra.first().map(|s| s.as_str()) {
+            Some("emit") if extra.len() >= 2 => c08::emit(tier, seed, &extra[1]),
+            Some("consume") if extra.len() >= 3 => c08::consume(&extra[1], &extra[2]),
+            _ => {
+                let mut r = Report::new();
+                r.inconclusive.push("C08 needs: emit <lib.jsonl> | consume <ref.jsonl> <outcomes.jsonl>".into());
+                r
+            }
+        },
         "C01" | "C02" => c01::run(prop, tier, seed),
         "C03" => c03::run(tier, seed),
         "C04" => c04::run_c04(tier, seed),
@@ -76,6 +85,7 @@ fn replay(rec: &Value) -> (String, Report) {
         "C05" => c04::replay_c05(&case),
         "C06" => c04::replay_c06(&case),
         "C07" => c04::replay_c07(&case),
+        "C08-seal" => c08::replay_seal(&case),
         "C09" => c09::replay(&case),
         "C10" => c10::replay(&case),
         "C11" | "C12" => c11::replay(&cmd, &case),
